@@ -43,7 +43,7 @@ TOL = {"rect_uniform": 1e-12, "quasi": 1e-12, "rect": 1e-9}
 def cases(tier, rng):
     # a scene costs one first build (2-15 CPU s, XLA compilation of eager ops) and one compile of the time loop
     # per variant; variants share every shape so that later builds are cheap
-    n_cases, per = (8, 1) if tier == "quick" else (56, 3)
+    n_cases, per = (8, 1) if tier == "quick" else (56, 2)
     out = []
     for i in range(n_cases):
         # quick: two of the three alternative descriptions per scene (rotating), thorough: all three
